@@ -1,9 +1,266 @@
-"""Self-tests of the checking machinery (setup_cmd).  Grows with the interposition layer."""
+"""Self-tests of the checking machinery (MANIFEST.setup_cmd).
+
+quick : package imports from /repo; layered open() == builtin open() for every mode the package
+        uses; cooperative Lock/Condition shims vs the real threading primitives on the package's
+        wait-until-absent / append / remove+notify protocol (every shim interleaving explored, real
+        free-running outcomes must be among them); persistent-set reduction cross-checked against the
+        unreduced search; replay determinism.
+thorough: + the repository's own suite with all file-system seams active; real forked processes
+        with the real multiprocessing primitives (sampled conformance of C16's shim assumptions).
+"""
+import builtins
+import io
+import itertools
+import os
+import random
+import subprocess
+import sys
+import threading
+import time
+
+from . import common
+
+
+def check_open_conformance():
+    from . import env
+    env.install()
+    d = os.path.join(common.scratch(), "st-open")
+    os.makedirs(d, exist_ok=True)
+    env.set_root(d)
+    real = env.REAL["open"]
+    n = 0
+
+    def script(opn, path):
+        log = []
+
+        def rec(x):
+            log.append(x)
+        with opn(path, "wb") as f:
+            rec((type(f).__name__, f.mode, f.write(b"hello\nworld\n")))
+        with opn(path, "rb") as f:
+            rec((type(f).__name__, f.mode, f.read(), f.tell()))
+        with opn(path, "w", encoding="utf8") as f:
+            rec((type(f).__name__, f.mode, f.write("p1\np2\nlongpid\n")))
+        with opn(path, "a", encoding="utf8") as f:
+            rec((type(f).__name__, f.mode, f.write("p3\n"), f.fileno() > 2))
+        with opn(path, "r", encoding="utf8") as f:
+            rec((type(f).__name__, f.mode, [l for l in f]))
+        with opn(path, "r+", encoding="utf8") as f:
+            lines = [l for l in f.readlines() if l.strip() != "p2"]
+            f.seek(0)
+            f.writelines(lines)
+            f.truncate()
+            rec((type(f).__name__, f.mode, lines))
+        with opn(path, "r", encoding="utf8") as f:
+            rec(f.read())
+        with opn(path, "w+b") as f:
+            f.write(b"x" * 20000)
+            f.seek(3)
+            rec((type(f).__name__, f.mode, f.read(5), f.tell()))
+        try:
+            opn(os.path.join(os.path.dirname(path), "missing", "x"), "r")
+        except OSError as e:
+            rec(("err", type(e).__name__, e.errno))
+        try:
+            opn(path, "rz")
+        except ValueError as e:
+            rec(("err", "ValueError"))
+        fd = os.open(path, os.O_RDONLY)
+        with opn(fd, "rb") as f:
+            rec((type(f).__name__, len(f.read())))
+        with opn(path, "rb", buffering=0) as f:
+            rec((type(f).__name__, len(f.read())))
+        return log
+
+    a = script(real, os.path.join(d, "real.bin"))
+    env.CUR.w = env.BaseWorker("T1")
+    try:
+        b = script(builtins.open, os.path.join(d, "shim.bin"))
+        c = script(io.open, os.path.join(d, "shim2.bin"))
+    finally:
+        env.CUR.w = None
+    norm = lambda log: [tuple("FileIO" if x == "HFileIO" else x for x in e) if isinstance(e, tuple) else e for e in log]
+    assert norm(a) == norm(b) == norm(c), "layered open() differs from builtin open():\n%r\n%r" % (a, b)
+    return len(a)
+
+
+# ----------------------------------------------------------------------------- shim conformance
+
+
+def _protocol(Lock, Condition, make_list):
+    """The package's synchronisation protocol, parameterised by the primitives."""
+    lock = Lock()
+    cond = Condition(lock)
+    held = make_list()
+    log = make_list()
+
+    def worker(name):
+        def run(_store=None):
+            with cond:
+                while "x" in held:
+                    cond.wait()
+                held.append("x")
+            log.append(name + "+")
+            log.append(name + "-")
+            with cond:
+                held.remove("x")
+                cond.notify()
+            return name
+        return run
+    return worker, log, held
+
+
+def check_shims_threading(nthreads=3):
+    from . import env, engine_t
+
+    class Sc(engine_t.Scenario):
+        def terminal(self, ex, root):
+            if ex.deadlock is not None:
+                return ("DEADLOCK",)
+            return ("END", tuple(self.log), tuple(self.held))
+
+    # exhaustive over the shims
+    env.install()
+    root = os.path.join(common.scratch(), "st-shim")
+    from .specs import make_store
+    from . import tscen
+    tree = tscen.init_tree("empty")
+    terms = set()
+    holder = {}
+
+    class Sc2(Sc):
+        def make_threads(self):
+            worker, log, held = _protocol(env.SLock, env.SCond, list)
+            self.log, self.held = log, held
+            return {"T%d" % i: [worker("T%d" % i)] for i in range(1, nthreads + 1)}
+    sc = Sc2("shim-protocol", tree, {"T%d" % i: [] for i in range(1, nthreads + 1)}, tscen.P, tscen.ctx())
+    r = engine_t.explore(sc, root, reduce=False)
+    for t in r["terminals"]:
+        terms.add(t)
+    assert ("DEADLOCK",) not in terms, "shim protocol deadlocks"
+    shim_logs = {t[1] for t in terms}
+    for lg in shim_logs:
+        for i in range(0, len(lg), 2):
+            assert lg[i][:-1] == lg[i + 1][:-1], "critical sections interleave under the shims: %r" % (lg,)
+    # free-running with the real primitives
+    rng = random.Random(common.SEED)
+    seen = set()
+    for k in range(150):
+        worker, log, held = _protocol(threading.Lock, threading.Condition, list)
+        ths = [threading.Thread(target=worker("T%d" % i)) for i in range(1, nthreads + 1)]
+        rng.shuffle(ths)
+        for t in ths:
+            t.start()
+            if k % 3 == 0:
+                time.sleep(rng.random() * 0.0005)
+        for t in ths:
+            t.join(10)
+            assert not t.is_alive(), "real protocol hangs"
+        assert not held
+        seen.add(tuple(log))
+    assert seen <= shim_logs, "real threading produced an outcome the shims cannot: %r" % (seen - shim_logs,)
+    return r["executions"], len(shim_logs), len(seen)
+
+
+def check_reduction(tier="quick"):
+    """Terminal observations with the persistent-set reduction == without it."""
+    from . import env, engine_t, tscen
+    env.install()
+    root = os.path.join(common.scratch(), "st-red")
+    out = []
+    for spec in [
+        dict(name="t1A||d1 from Aunref", init="Aunref", threads={"T1": [("tag", "p1", "A")], "T2": [("delete", "p1")]}),
+        dict(name="d1||xA from p1A", init="p1A", threads={"T1": [("delete", "p1")], "T2": [("dii", "A", "badsize")]}),
+        dict(name="t1A||t2A from Aunref", init="Aunref", threads={"T1": [("tag", "p1", "A")], "T2": [("tag", "p2", "A")]}),
+    ] + ([] if tier == "quick" else [
+        dict(name="s2A||d1 from p1A", init="p1A", threads={"T1": [("store", "p2", "A", None)], "T2": [("delete", "p1")]}),
+        dict(name="d1||d1||d1 bound 2", init="p1A", bound=2,
+             threads={"T1": [("delete", "p1")], "T2": [("delete", "p1")], "T3": [("delete", "p1")]}),
+    ]) + [
+        dict(name="M1||Da", init="meta", threads={"T1": [("store_meta", "p1", None, "v1")], "T2": [("delete_meta", "p1", None)]},
+             formats=(common.DEFAULT_NS,), pids=("p1",)),
+    ]:
+        sc = tscen.make_scenario(spec)
+        a = engine_t.explore(sc, root, reduce=True, bound=spec.get("bound"))
+        b = engine_t.explore(sc, root, reduce=False, bound=spec.get("bound"))
+        assert set(a["terminals"]) == set(b["terminals"]), "reduction changes the reachable observations of %s" % spec["name"]
+        # determinism: replaying a recorded schedule gives the recorded observation
+        for term, sched in list(a["terminals"].items())[:3]:
+            ex = engine_t.run_execution(sc, root, sched, set(), explore=False)
+            assert sc.terminal(ex, root) == term, "schedule does not replay deterministically"
+        out.append((spec["name"], a["executions"], b["executions"], len(a["terminals"])))
+    return out
+
+
+# ----------------------------------------------------------------------------- thorough
+
+
+def check_repo_suite_under_layer():
+    env_ = dict(os.environ, PYTHONPATH=common.VERIF, PYTHONHASHSEED="0")
+    r = subprocess.run([sys.executable, "-m", "pytest", "-q", "-p", "no:cacheprovider", "-p", "hsverif.pytest_layer",
+                        "-x", "-q"], cwd=common.REPO, env=env_, capture_output=True, text=True, timeout=1800)
+    tail = r.stdout.strip().splitlines()[-3:]
+    assert r.returncode == 0, "repository suite fails under the interposition layer:\n" + r.stdout[-2000:]
+    return tail
+
+
+def check_real_multiprocessing():
+    """Real forked workers with the real multiprocessing primitives contend on shared pids / cids."""
+    code = r'''
+import os, sys, multiprocessing, hashlib, logging
+logging.disable(logging.CRITICAL)
+os.environ["USE_MULTIPROCESSING"] = "True"
+sys.path.insert(0, "%s/src")
+from hashstore.filehashstore import FileHashStore
+root = sys.argv[1]
+data = root + "-in.bin"
+open(data, "wb").write(b"A" * 5000)
+store = FileHashStore(dict(store_path=root, store_depth=3, store_width=2, store_algorithm="SHA-256",
+                           store_metadata_namespace="ns://x"))
+assert store.use_multiprocessing
+def work(i):
+    out = []
+    for k in range(6):
+        pid = "p%%d" %% ((i + k) %% 3)
+        for call in (lambda: store.store_object(pid, data), lambda: store.store_metadata(pid, data),
+                     lambda: store.delete_object(pid)):
+            try:
+                call(); out.append("ok")
+            except Exception as e:
+                out.append(type(e).__name__)
+    return out
+ctx = multiprocessing.get_context("fork")
+with ctx.Pool(4) as pool:
+    res = pool.map(work, range(4))
+allowed = {"ok", "StoreObjectForPidAlreadyInProgress", "PidRefsDoesNotExist", "HashStoreRefsAlreadyExists",
+           "PidRefsAlreadyExistsError", "RefsFileExistsButCidObjMissing"}
+bad = sorted({x for r in res for x in r} - allowed)
+lists = [list(store.object_locked_pids_mp), list(store.object_locked_cids_mp), list(store.reference_locked_pids_mp),
+         list(store.metadata_locked_docs_mp)]
+print("OUT", bad, lists)
+assert not bad, bad
+assert not any(lists), lists
+''' % common.REPO
+    d = os.path.join(common.scratch(), "st-mp")
+    os.makedirs(d, exist_ok=True)
+    r = subprocess.run([sys.executable, "-c", code, os.path.join(d, "store")], capture_output=True, text=True, timeout=600)
+    assert r.returncode == 0, "real multiprocessing run failed:\n" + r.stdout[-1500:] + r.stderr[-1500:]
+    return r.stdout.strip().splitlines()[-1]
 
 
 def main(tier="quick"):
-    import hashstore.filehashstore  # noqa: F401 - the package must import from /repo/src
-    from . import common
+    import hashstore.filehashstore
     assert hashstore.filehashstore.__file__.startswith(common.REPO), hashstore.filehashstore.__file__
-    print("selftest ok")
+    t0 = time.time()
+    n = check_open_conformance()
+    print("selftest: layered open() conforms to builtin open() on %d observations" % n)
+    ex, nl, ns = check_shims_threading()
+    print("selftest: lock/condition shims: %d interleavings, %d outcomes; real threading showed %d, all among them" % (ex, nl, ns))
+    for name, a, b, t in check_reduction(tier):
+        print("selftest: reduction %-22s %5d executions (unreduced %5d), %d observations, equal sets, replays deterministic" % (
+            name, a, b, t))
+    if tier == "thorough":
+        print("selftest: repository suite under the layer:", check_repo_suite_under_layer())
+        print("selftest: real multiprocessing:", check_real_multiprocessing())
+    print("selftest ok (%.1fs)" % (time.time() - t0))
     return 0
